@@ -29,6 +29,10 @@ def closed_subterms(n: Node, bound=frozenset()) -> List[Node]:
                 rec(vv)
         elif x.k == "has":
             rec(x.a[0])
+        elif x.k == "obj":
+            rec(x.a[0])
+            for _, vv in x.a[1]:
+                rec(vv)
         else:
             for y in x.a:
                 if isinstance(y, Node):
@@ -39,8 +43,23 @@ def closed_subterms(n: Node, bound=frozenset()) -> List[Node]:
     return out
 
 
-def localize(n: Node, fails: Callable[[Node], bool], limit: int = 60) -> Node:
-    subs = closed_subterms(n)
+def all_subterms(n: Node) -> List[Node]:
+    """Every sub-expression in post-order (macro bodies included)."""
+    out: List[Node] = []
+
+    def rec(x: Node):
+        for y in operands(x):
+            rec(y)
+        if x.k == "macro":
+            rec(x.a[3])
+        out.append(x)
+
+    rec(n)
+    return out
+
+
+def localize(n: Node, fails: Callable[[Node], bool], limit: int = 60, closed: bool = True) -> Node:
+    subs = closed_subterms(n) if closed else all_subterms(n)
     if len(subs) > limit:
         subs = subs[-limit:]
     for s in subs[:-1]:
@@ -111,6 +130,8 @@ def operands(n: Node) -> List[Node]:
         return list(n.a)
     if n.k in ("field", "has"):
         return [n.a[0]]
+    if n.k == "obj":
+        return [n.a[0]] + [v for _, v in n.a[1]]
     if n.k == "list":
         return list(n.a)
     if n.k == "map":
